@@ -158,6 +158,12 @@ def run(ctx):
         else:
             texts = [IMPORT] + texts
         progs.append((texts, uses_lib))
+    # long programs (more than 16 KiB) full of characters that take two to four bytes: however the file is read in pieces,
+    # every piece boundary falls somewhere - for one of the paddings inside a character
+    for pad in range(4):
+        line = '(display "caf\u00e9 \u017c\u00f3\u0142\u0107 \u65e5\u672c\u8a9e \U0001F600 %s")'
+        texts = [IMPORT, "; " + "x" * pad] + [line % ("n%d" % k) for k in range(260)] + ["(newline)"]
+        progs.append((texts, False))
     jobs = []
     for i, (texts, uses_lib) in enumerate(progs):
         d = os.path.join(base, "r%d" % i); os.makedirs(d, exist_ok=True)
